@@ -343,6 +343,14 @@ pub fn run(ctx: &mut Ctx) -> Report {
 	cases.push(Opts { country: Some("de*".into()), dir_exists: false, ..base.clone() });
 	cases.push(Opts { country: Some("Why?".into()), org: Some("Örg \u{1F600} \t".into()), cn: Some("名前 \u{7f}".into()), ..base.clone() });
 	cases.push(Opts { country: Some("".into()), org: Some("".into()), cn: Some("".into()), ..base.clone() });
+	// every ASCII character in the country name (the one option with an alphabet of its own): the
+	// PrintableString characters are valid, every other one must be refused before anything is written
+	for c in 0x20u8..0x7f {
+		if c == b'-' {
+			continue; // "-…" would read as an option to the argv parser
+		}
+		cases.push(Opts { country: Some(format!("A{}", c as char)), ..base.clone() });
+	}
 	cases.push(Opts { cert: "leaf".into(), ca: "authority".into(), dir_exists: false, ..base.clone() });
 	cases.push(Opts { cert: "same".into(), ca: "same".into(), ..base.clone() });
 	// base names that differ but share an output file, and look-alikes that do not
